@@ -289,6 +289,16 @@ impl Sim {
         })
     }
 
+    /// Buffers handed to the client are "recycled": never freshly zeroed (a third all 0xFF,
+    /// a third patterned, a third zero), so anything the encoder forgets to write shows up.
+    fn dirty_buffer(&self, len: usize) -> Vec<u8> {
+        match self.nsteps % 3 {
+            0 => vec![0xFFu8; len],
+            1 => (0..len).map(|i| (i as u8).wrapping_mul(31).wrapping_add(self.nsteps as u8) | 1).collect(),
+            _ => vec![0u8; len],
+        }
+    }
+
     pub fn inst(&self, ns: u64) -> Instant {
         self.base + Duration::from_nanos(ns)
     }
@@ -419,7 +429,8 @@ impl Sim {
         let now = self.now;
         let inst = self.inst(now);
         let m = MessageMethod::try_from(method & 0xFFF).unwrap();
-        let r = guarded(|| self.client.send_request(m, attrs, vec![0u8; buf_len], inst));
+        let buffer = self.dirty_buffer(buf_len);
+        let r = guarded(|| self.client.send_request(m, attrs, buffer, inst));
         let result = match r {
             Err(p) => {
                 self.panic_violation(ctx, "send_request", &p);
@@ -454,7 +465,8 @@ impl Sim {
         let before = self.snap();
         let now = self.now;
         let m = MessageMethod::try_from(method & 0xFFF).unwrap();
-        let r = guarded(|| self.client.send_indication(m, attrs, vec![0u8; buf_len]));
+        let buffer = self.dirty_buffer(buf_len);
+        let r = guarded(|| self.client.send_indication(m, attrs, buffer));
         let result = match r {
             Err(p) => {
                 self.panic_violation(ctx, "send_indication", &p);
